@@ -1,6 +1,139 @@
-//! Kani harnesses for nomt/src/beatree/ops/bit_ops.rs (compiled into the real crate only under cfg(kani)).
+//! K6 / V4: contracts of nomt/src/beatree/ops/bit_ops.rs checked on the compiled functions.
 #![allow(unused_imports, dead_code)]
 use super::*;
+
+fn bit(k: &[u8], i: usize) -> bool {
+    (k[i / 8] >> (7 - (i % 8))) & 1 == 1
+}
+
+/// prefix_len(a, b) is the length of the longest common bit prefix (MSB first):
+/// all bits below it agree, and the bit at it (if < 256) differs.  Loops are bounded by the key
+/// width (32 x 8): complete.
+#[kani::proof]
+#[kani::unwind(34)]
+fn prefix_len_is_lcp() {
+    let a: Key = kani::any();
+    let b: Key = kani::any();
+    let r = prefix_len(&a, &b);
+    assert!(r <= 256);
+    let i: usize = kani::any();
+    kani::assume(i < 256);
+    if i < r {
+        assert!(bit(&a, i) == bit(&b, i));
+    }
+    if r < 256 {
+        assert!(bit(&a, r) != bit(&b, r));
+    }
+    assert!((r == 256) == (a == b));
+    kani::cover!(r == 256, "equal keys reachable");
+    kani::cover!(r == 13, "mid-byte divergence reachable");
+}
+
+/// separate(a, b) for a < b: a < s <= b, s agrees with b on its first lcp+1 bits and is zero
+/// afterwards (the shortest separator).  Complete.
+#[kani::proof]
+#[kani::unwind(34)]
+fn separate_is_shortest_separator() {
+    let a: Key = kani::any();
+    let b: Key = kani::any();
+    kani::assume(a < b);
+    let s = separate(&a, &b);
+    let l = prefix_len(&a, &b);
+    assert!(l < 256);
+    assert!(a < s);
+    assert!(s <= b);
+    let i: usize = kani::any();
+    kani::assume(i < 256);
+    if i <= l {
+        assert!(bit(&s, i) == bit(&b, i));
+    } else {
+        assert!(!bit(&s, i));
+    }
+    assert!(separator_len(&s) == l + 1);
+    kani::cover!(l == 0, "divergence at the first bit reachable");
+    kani::cover!(l == 255, "divergence at the last bit reachable");
+}
+
+/// separator_len(k) = max(1, 256 - number of trailing zero bits).  Complete.
+#[kani::proof]
+#[kani::unwind(34)]
+fn separator_len_spec() {
+    let k: Key = kani::any();
+    let r = separator_len(&k);
+    assert!(r >= 1 && r <= 256);
+    let j: usize = kani::any();
+    kani::assume(j < 256);
+    if k == [0u8; 32] {
+        assert!(r == 1);
+    } else {
+        assert!(bit(&k, r - 1));
+        if j >= r {
+            assert!(!bit(&k, j));
+        }
+    }
+    kani::cover!(r == 256, "full-length separator reachable");
+    kani::cover!(r == 9, "mid-byte separator reachable");
+}
+
+/// bitwise_memcpy: for every j < len, destination bit dstart+j == source bit sstart+j; every other
+/// destination bit is unchanged.  Source of `nbytes` bytes (8..40: 1 to 5 chunks, which covers every
+/// single-separator use: <= 256 bits at offset < 8), bit offsets 0..8, any length that fits,
+/// destination of any sufficient length up to 48 bytes.
+fn memcpy_contract(nbytes: usize) {
+    let src: [u8; 40] = kani::any();
+    let dst0: [u8; 48] = kani::any();
+    let mut dst = dst0;
+    let sstart: usize = kani::any();
+    let dstart: usize = kani::any();
+    let len: usize = kani::any();
+    let dlen: usize = kani::any();
+    kani::assume(sstart < 8 && dstart < 8);
+    kani::assume(len >= 1 && len <= 320);
+    // the source is the smallest multiple of 8 bytes containing the bits
+    kani::assume(sstart + len <= nbytes * 8 && sstart + len > (nbytes - 8) * 8);
+    kani::assume(dlen <= 48 && dlen * 8 >= dstart + len);
+    bitwise_memcpy(&mut dst[..dlen], dstart, &src[..nbytes], sstart, len);
+    let j: usize = kani::any();
+    kani::assume(j < len);
+    assert!(bit(&dst, dstart + j) == bit(&src, sstart + j));
+    let q: usize = kani::any();
+    kani::assume(q < 48 * 8);
+    if q < dstart || q >= dstart + len {
+        assert!(bit(&dst, q) == bit(&dst0, q));
+    }
+    kani::cover!(dstart > sstart, "right shift reachable");
+    kani::cover!(dstart < sstart, "left shift reachable");
+}
+
+#[kani::proof]
+#[kani::unwind(10)]
+fn bitwise_memcpy_1chunk() {
+    memcpy_contract(8);
+}
+
+#[kani::proof]
+#[kani::unwind(10)]
+fn bitwise_memcpy_2chunks() {
+    memcpy_contract(16);
+}
+
+#[kani::proof]
+#[kani::unwind(10)]
+fn bitwise_memcpy_3chunks() {
+    memcpy_contract(24);
+}
+
+#[kani::proof]
+#[kani::unwind(10)]
+fn bitwise_memcpy_4chunks() {
+    memcpy_contract(32);
+}
+
+#[kani::proof]
+#[kani::unwind(10)]
+fn bitwise_memcpy_5chunks() {
+    memcpy_contract(40);
+}
 
 #[cfg(test)]
 include!("/verif/.build/playback/bit_ops.inc");
